@@ -190,7 +190,7 @@ func ruleDC(w *world.World, r *report.RuleResult) {
 						if iff == nil || !inLoop(l, pb) {
 							continue
 						}
-						if derivesFrom(iff.Cond, func(v ssa.Value) bool {
+						if derivesFrom(world.CondValue(iff), func(v ssa.Value) bool {
 							in, ok := v.(ssa.Instruction)
 							return ok && storedObjectCall(v) && in.Block() != nil && inLoop(l, in.Block())
 						}, 0) && pb.Dominates(b) {
@@ -212,7 +212,7 @@ func ruleDC(w *world.World, r *report.RuleResult) {
 						if iff == nil || !inLoop(l, bb) && bb != l.h {
 							return 0
 						}
-						live := derivesFrom(iff.Cond, func(v ssa.Value) bool {
+						live := derivesFrom(world.CondValue(iff), func(v ssa.Value) bool {
 							switch x := v.(type) {
 							case *ssa.Lookup:
 								if changed != nil && world.SameExpr(x.X, changed) {
@@ -255,7 +255,7 @@ func isClientList(v ssa.Value) bool {
 	switch x := v.(type) {
 	case *ssa.Field:
 		if st, ok := x.X.Type().Underlying().(*types.Struct); ok {
-			n := st.Field(x.Field).Name()
+			n := world.CanonField(st.Field(x.Field))
 			return (n == "Command" && world.TypeIs(x.X.Type(), "/internal", "HandlerFuncParams")) || ((n == "ReadKeys" || n == "WriteKeys" || n == "Channels") && world.TypeIs(x.X.Type(), "/internal", "KeyExtractionFuncResult"))
 		}
 	case *ssa.FieldAddr:
